@@ -117,8 +117,12 @@ Receive ==
     /\ \E m \in Msgs :
          /\ msg' = m
          /\ LET errs == PrereqErrors(mem, m.pre, Apex) \cup PrescanErrors(m.upd, Apex) IN
-            IF errs # {}
-            THEN /\ reply' = CHOOSE c \in errs : TRUE
+            \* a zone-class RR without RDATA (UpdateOps!EmptyAdd) may be refused or added as it is;
+            \* either way the decision falls HERE, before the first row goes to the journal: "a
+            \* refused update leaves nothing in the journal that changes or breaks recovery"
+            \E refuse \in (IF errs = {} /\ HasEmptyAdd(m.upd) THEN BOOLEAN ELSE {FALSE}) :
+            IF errs # {} \/ refuse
+            THEN /\ reply' = (IF errs # {} THEN CHOOSE c \in errs : TRUE ELSE "FORMERR")
                  /\ pc' = "ack" /\ fin' = [rrs |-> mem.rrs, ser |-> mem.ser, changed |-> FALSE]
             ELSE /\ reply' = "NOERROR" /\ pc' = "log" /\ fin' = Final(mem, m.upd)
     /\ i' = 1
